@@ -229,6 +229,19 @@ def run(rep, tier):
                          'nlabels_in': len(labs_all), 'nlabels_out': int(ser.nlabels)})
         if not ok:
             continue
+        # relabel=True must give labels 1..N also when nothing is split (input with label gaps, very high contrast)
+        if not np.array_equal(np.asarray(segm.labels), np.arange(1, segm.nlabels + 1)):
+            p2 = dict(params, contrast=0.999, relabel=True)
+            with warnings.catch_warnings():
+                warnings.simplefilter('ignore')
+                try:
+                    out2 = deblend_sources(img, segm, labels=labels_arg, nproc=1, progress_bar=False, **p2)
+                except Exception as e:                          # noqa: BLE001
+                    rep.violation(f'deblend-raises:{type(e).__name__}', f'deblend_sources raised {e!r}', dict(replay, params=p2))
+                    continue
+            rep.count('no-split-relabel-probe')
+            if not check_output(rep, img, segm, out2, p2, labels_arg, {}, dict(replay, params=p2)):
+                continue
         # schedules
         orders = [lambda n: list(range(n))[::-1], lambda n: list(range(n))[1:] + list(range(n))[:1],
                   lambda n: r.sample(range(n), n)]
